@@ -164,3 +164,27 @@ Theorem C04_write_is_source : forall b,
   = match Bio.Model.Bed.write_calls b with Ok cs => GoSem.Ret (cs, false) | _ => GoSem.Ret ([], true) end.
 Proof. exact ImpProofsG.imp_BED_Write. Qed.
 Print Assumptions C04_write_is_source.
+
+From Bio.Proofs Require ImpProofsH.
+
+(* parseLine as translated from bed.go — the field-count check, the padding to twelve
+   fields, strconv.Atoi on every numeric field, the strand test with its short-circuit
+   chain, the RGB triple through strconv.ParseUint(_, 0, 8) (modelled in Model/Bed.v), the
+   two comma-separated block lists filled element by element, the two count checks — returns
+   the model's record for exactly the field lists the model accepts, and an error otherwise.
+   (The model's Atoi and ParseUint are library models, section 7 of DESIGN.md.) *)
+Theorem C04_parse_line_is_source : forall fields,
+  ImpGen.imp_bed_parseLine fields
+  = match Bio.Model.Bed.parse_line fields with
+    | Ok b => GoSem.Ret (ImpProofsG.bed_of b, false)
+    | _ => GoSem.Ret (ImpProofsH.zero_bed, true)
+    end.
+Proof. exact ImpProofsH.imp_parseLine. Qed.
+Print Assumptions C04_parse_line_is_source.
+
+Example C04_source_parse_example :
+  ImpGen.imp_bed_parseLine [bs "chr1"; bs "5"; bs "9"; bs "n"; bs "3"; bs "+"; bs "5"; bs "9"; bs "1,0x2,0b11"; bs "2"; bs "1,2"; bs "0,3"]
+  = GoSem.Ret (ImpGen.Imp_bed_BED 12 (bs "chr1") 5 9 (bs "n") 3 (bs "+") 5 9 [1; 2; 3]%N 2 [1; 2]%Z [0; 3]%Z, false)
+  /\ ImpGen.imp_bed_parseLine [bs "chr1"; bs "5"; bs "x"] = GoSem.Ret (ImpProofsH.zero_bed, true)
+  /\ ImpGen.imp_bed_parseLine [bs "chr1"; bs "5"] = GoSem.Ret (ImpProofsH.zero_bed, true).
+Proof. vm_compute. repeat split. Qed.
